@@ -994,7 +994,7 @@ def shrinker(case):
 
 
 QUICK = dict(store=200, should=1200, oprepr=200, algebra=120, obs=250, bitprobs=250, backend=24)
-THOROUGH = dict(store=1500, should=8000, oprepr=1200, algebra=600, obs=900, bitprobs=1500, backend=70)
+THOROUGH = dict(store=6000, should=30000, oprepr=5000, algebra=2500, obs=4000, bitprobs=6000, backend=250)
 GENS = dict(store=gen_store, should=gen_should, oprepr=gen_oprepr, algebra=gen_algebra, obs=gen_obs,
             bitprobs=gen_bitprobs, backend=gen_backend)
 
@@ -1011,7 +1011,11 @@ def check(tier: str, seed: int) -> int:
         for _ in range(count):
             if not camp.budget_left(limit):
                 break
-            out = camp.run_case(GENS[kind](rng), "generated")
+            if kind == "obs" and tier == "thorough" and rng.random() < 0.15:
+                case = gen_obs(rng, big=True)          # up to 27-dimensional states (monitor only above 16)
+            else:
+                case = GENS[kind](rng)
+            out = camp.run_case(case, "generated")
             if kind == "backend":
                 camp.test_results["backend_smoke_runs"] += 1
                 if out.fails:
